@@ -396,12 +396,14 @@ func (s *Store) instantiate(
 	// After engine creation, we can create the funcref element instances and initialize funcref type globals.
 	m.buildElementInstances(module.ElementSection)
 
-	// Now all the validation passes, we are safe to mutate memory instances (possibly imported ones).
+	// Now all the validation passes, we are safe to mutate table and memory instances (possibly imported ones).
+	// Element segments are applied before data segments as in the specification's instantiation order, so
+	// that their side effects persist when a later data segment is out of bounds.
+	m.applyElements(module.ElementSection)
+
 	if err = m.applyData(module.DataSection); err != nil {
 		return nil, err
 	}
-
-	m.applyElements(module.ElementSection)
 
 	m.Engine.DoneInstantiation()
 
